@@ -97,6 +97,7 @@ class Sem:
         self._caller: Optional[Tuple["Sem", ast.Call, Dict[str, ast.AST]]] = None
         self._caller_done = False
         self.subst_consts = True   # substitute module-level literal constants
+        self.keep_names: Set[str] = set()   # locals that are never substituted (kept symbolic)
         self.inline_helpers = True  # β-reduce calls of private single-expression helpers of the same module
         if caller is not None:
             self._caller_done = True
@@ -215,7 +216,7 @@ class Sem:
 
     def _res(self, e: ast.AST, at: int, depth: int, busy: Set[Tuple[str, int]], tc: bool) -> ast.AST:
         if isinstance(e, ast.Name) and isinstance(e.ctx, ast.Load):
-            if depth <= 0:
+            if depth <= 0 or e.id in self.keep_names:
                 return e
             ds = self.du.reaching(e.id, at)
             if len(ds) == 1:
@@ -223,7 +224,7 @@ class Sem:
                 key = (d.name, d.node)
                 if key in busy:
                     return e
-                if e.id in self._mutated and d.kind in ("assign", "aug", "unpack"):
+                if (e.id in self._mutated or e.id in self.keep_names) and d.kind in ("assign", "aug", "unpack"):
                     return e
                 if d.kind == "assign" and d.value is not None:
                     if isinstance(d.value, ast.Dict):
@@ -247,6 +248,7 @@ class Sem:
                     if self._caller is not None:
                         csem, call, b = self._caller
                         if e.id in b:
+                            csem.keep_names |= self.keep_names
                             return csem._res(b[e.id], csem.du.node_of_expr(call), depth - 1, set(), tc)
                     return e
                 return e
@@ -314,9 +316,35 @@ class Sem:
             sub.setdefault(pn, d_)
         if any(p_ not in sub for p_ in params):
             return None
-        return self._subst(body[0].value, sub)
+        out = self._subst(body[0].value, sub)
+        if self.subst_consts:
+            consts: Dict[str, ast.AST] = {}
+            for n in ast.walk(body[0].value):
+                if isinstance(n, ast.Name) and n.id not in sub and n.id not in consts:
+                    a = m.assigns.get(n.id)
+                    if a and len(a) == 1 and isinstance(a[0], (ast.Constant, ast.Tuple)):
+                        consts[n.id] = a[0]
+            if consts:
+                out = self._subst(out, consts)
+        return out
+
+    def _inline_in_comp(self, c: ast.Call, at: int, depth: int, busy, tc: bool, bound: Set[str]) -> Optional[ast.AST]:
+        """_inline for a call inside a comprehension: arguments that mention comprehension-bound names are passed through as they are."""
+        c2 = copy.copy(c)
+        c2.args = [self._res_comp(a, at, depth - 1, busy, tc, bound) for a in c.args]
+        c2.keywords = [ast.keyword(arg=k.arg, value=self._res_comp(k.value, at, depth - 1, busy, tc, bound)) for k in c.keywords]
+        saved = self.keep_names
+        self.keep_names = self.keep_names | bound
+        try:
+            return self._inline(c2, at, depth, busy, tc)
+        finally:
+            self.keep_names = saved
 
     def _res_comp(self, e: ast.AST, at: int, depth: int, busy, tc: bool, bound: Set[str]) -> ast.AST:
+        if isinstance(e, ast.Call) and self.inline_helpers and depth > 0:
+            inl = self._inline_in_comp(e, at, depth, busy, tc, bound)
+            if inl is not None:
+                return inl
         if isinstance(e, ast.Name):
             if e.id in bound or not isinstance(e.ctx, ast.Load):
                 return e
